@@ -14,6 +14,9 @@ Whole bodies (extract.pin_functions):
   xact.cc:add_balancing_post add_balancing_post::operator()
   journal.cc:extend_xact     journal_t::extend_xact
   journal.cc:add_xact        journal_t::add_xact
+  post.cc:fn_any / fn_all    any() / all() over the live `post.xact->posts`
+  item.cc:append_note, item.h:copy_details, xact.h:auto_xact_t::parse_tags   (notes, state, deferred notes)
+  pool.cc:exchange           the lot annotation finalize gives a posting with a cost
 Individual statements of extend_xact the model's definitions correspond to, each
 asserted to be present and in this order (ExtractError names the missing one):
   stmt:snapshot, stmt:loop, stmt:skip_generated, stmt:amount_rule,
@@ -28,6 +31,22 @@ XACT_FNS = [
     ("xact.cc:post_pred", r"bool\s+post_pred\(expr_t::ptr_op_t op, post_t& post\)\s*\{"),
     ("xact.cc:verify", r"bool\s+xact_base_t::verify\(\)\s*\{"),
     ("xact.cc:add_balancing_post", r"void\s+operator\(\)\(const amount_t& amount\)\s*\{"),
+]
+POST_FNS = [
+    ("post.cc:fn_any", r"value_t\s+fn_any\(call_scope_t& args\)\s*\{"),
+    ("post.cc:fn_all", r"value_t\s+fn_all\(call_scope_t& args\)\s*\{"),
+]
+ITEM_FNS = [
+    ("item.cc:append_note", r"void\s+item_t::append_note\(const char \* p,\s*scope_t&\s+scope,\s*bool\s+overwrite_existing\)\s*\{"),
+]
+ITEM_H_FNS = [
+    ("item.h:copy_details", r"virtual void copy_details\(const item_t& item\)\s*\{"),
+]
+XACT_H_FNS = [
+    ("xact.h:auto_xact_t::parse_tags", r"virtual void parse_tags\(const char \* p, scope_t&,\s*bool overwrite_existing = true\)\s*\{"),
+]
+POOL_FNS = [
+    ("pool.cc:exchange", r"cost_breakdown_t\s+commodity_pool_t::exchange\(const amount_t&\s+amount,"),
 ]
 JOURNAL_FNS = [
     ("journal.cc:extend_xact", r"void\s+journal_t::extend_xact\(xact_base_t \* xact\)\s*\{"),
@@ -46,7 +65,9 @@ STMTS = [
 
 
 def pairs():
-    out = pin_functions("xact.cc", XACT_FNS) + pin_functions("journal.cc", JOURNAL_FNS)
+    out = pin_functions("xact.cc", XACT_FNS) + pin_functions("journal.cc", JOURNAL_FNS) + pin_functions("post.cc", POST_FNS) + \
+        pin_functions("item.cc", ITEM_FNS) + pin_functions("item.h", ITEM_H_FNS) + pin_functions("xact.h", XACT_H_FNS) + \
+        pin_functions("pool.cc", POOL_FNS)
     d = dict(out)
     ext = d["xact.cc:extend_xact"]
     pos = -1
@@ -65,7 +86,7 @@ def pairs():
 
 def gen_autoxact():
     return gen_pairs("Normalised text of the automated-transaction code that Model/AutoXact.lean mirrors.",
-                     "autoXactFns", pairs(), "src/xact.cc, src/journal.cc (tools/extract_autoxact.py)")
+                     "autoXactFns", pairs(), "src/xact.cc, journal.cc, post.cc, item.cc, item.h, xact.h, pool.cc (tools/extract_autoxact.py)")
 
 
 MORE = {"AutoXact": gen_autoxact}
